@@ -287,20 +287,30 @@ def lattice_checks(e, poly, s, pts):
     return [ok]
 
 
-def make_gen_fn(poly, rot, lattice=False, twin=False):
+def make_gen_fn(poly, rot, lattice=False, twin=False, nogo=None):
     def fn(e):
         import ghedesigner.rowwise as RW
         from ghedesigner.shape import Shapes
-        s = Spacing(z3.Real('s'))
+        hi = PERIM_HI if nogo else HI
+        s = Spacing(z3.Real('s'), LO, hi) if nogo else Spacing(z3.Real('s'))
         e.inputs['s'] = s.t
-        e.assume((s >= LO) & (s <= HI))
+        e.assume((s >= LO) & (s <= hi))
         declare_extent(e, poly, rot)
-        arm(poly)
-        holes = RW.gen_borehole_config(Shapes(poly), s, s, rotate=rot)
+        arm(poly, 3 if nogo else 1)
+        zones = [Shapes(z) for z in nogo] if nogo else None
+        try:
+            holes = RW.gen_borehole_config(Shapes(poly), s, s, no_go=zones, rotate=rot)
+        except Unsupported:
+            if not nogo:
+                raise
+            # a row whose chord through a no-go zone is shorter than the spacing: process_rows widens the two crossings by
+            # (s - chord)/2, coordinates then depend continuously on s - outside pattern B, cut (counted as pruned path)
+            e.notes['cut'] = 'no-go chord shorter than the spacing'
+            raise PathAbort() from None
         e.notes['n'] = len(holes)
         if twin:
             return False
-        cs, pts = basic_checks(poly, s, holes)
+        cs, pts = basic_checks(poly, s, holes, nogo=nogo or ())
         if lattice:
             cs += lattice_checks(e, poly, s, pts)
         prefer_interior(e)
@@ -308,21 +318,22 @@ def make_gen_fn(poly, rot, lattice=False, twin=False):
     return fn
 
 
-def make_gen_replay(poly, rot, lattice=False):
+def make_gen_replay(poly, rot, lattice=False, nogo=None):
     def replay(model, notes):
         restore_shadows()
         import ghedesigner.rowwise as RW
         from ghedesigner.shape import Shapes
         s = float(model['s'])
         shadow(RW, 'sqrt', _sqrt)
-        arm(poly)
+        arm(poly, 3 if nogo else 1)
+        zones = [Shapes(z) for z in nogo] if nogo else None
         try:
-            holes = RW.gen_borehole_config(Shapes(poly), s, s, rotate=rot)
+            holes = RW.gen_borehole_config(Shapes(poly), s, s, no_go=zones, rotate=rot)
         except Exception as ex:  # noqa: BLE001
             return True, dict(exception='%s: %s' % (type(ex).__name__, ex), s=s)
         finally:
             restore_shadows()
-        cs, pts = basic_checks(poly, s, holes)
+        cs, pts = basic_checks(poly, s, holes, nogo=nogo or ())
         if lattice:
             cs += lattice_checks(None, poly, s, pts)
         bad = [k for k, c in enumerate(cs) if not bool(c)]
@@ -577,7 +588,8 @@ def units(tier, seed):
     F2 = ['rowwise.py:field_optimization_fr', 'rowwise.py:field_optimization_wp_space_fr']
     F3 = ['rowwise.py:two_space_gen_bhc', 'rowwise.py:perimeter_distribute', 'rowwise.py:remove_points_too_close', 'rowwise.py:dist_from_line']
     AS = ['coordinates run natively in binary64; the spacing enters through floor-divisions and comparisons only',
-          'spacing regions thinner than 1e-9 (relative) are outside the lattice-count and translation clauses']
+          'spacing regions thinner than 1e-9 (relative) are outside the lattice-count and translation clauses',
+          'no-go units: spacings for which some row crosses a zone on a chord shorter than the spacing are cut (intersections widened by (s-chord)/2: continuous in s)']
     polys = dict(POLYS)
     for k in range(2 if tier == 'quick' else 40):
         nv = rnd.randint(3, 12)
@@ -591,6 +603,19 @@ def units(tier, seed):
             lat = nm.startswith('rect') and rot == 0.0
             us.append(Unit('gen_%s_rot%.2f' % (nm, rot), make_gen_fn(poly, rot, lat), make_gen_replay(poly, rot, lat), setup, F,
                            'polygon %s (%d vertices), rotation %.3f rad concrete; target spacing: all reals in [5,25] m' % (nm, len(poly), rot), AS, max_seconds=1500))
+    # plain generator with no-go zones (one zone; two zones in both list orders: a row's crossings of *every* zone must be honoured)
+    Z1 = [(30.0, 20.0), (45.0, 20.0), (45.0, 35.0), (30.0, 35.0)]
+    Z2 = [(12.0, 14.0), (25.0, 14.0), (25.0, 30.0), (12.0, 30.0)]
+    Z3 = [(48.0, 30.0), (62.0, 30.0), (62.0, 44.0), (48.0, 44.0)]
+    H1 = [(25.0, 10.0), (40.0, 10.0), (40.0, 22.0), (25.0, 22.0)]
+    H2 = [(30.0, 30.0), (46.0, 30.0), (46.0, 42.0), (30.0, 42.0)]
+    ng = [('rect60x40', [Z1], 0.0), ('rect60x40', [Z2, Z3], 0.0), ('rect60x40', [Z3, Z2], 0.3), ('hexagon', [H1, H2], 0.0), ('hexagon', [H2, H1], -0.6)]
+    if tier == 'thorough':
+        ng += [('rect60x40', [Z2, Z3], -1.2), ('rect60x40', [Z1, Z2, Z3], 0.0), ('hexagon', [H1], math.pi / 4), ('rect60x40', [Z3, Z2], 0.0)]
+    for nm, zones, rot in ng:
+        us.append(Unit('gen_nogo%d_%s_rot%.2f_%s' % (len(zones), nm, rot, 'ab' if zones[0] in (Z2, H1, Z1) else 'ba'), make_gen_fn(polys[nm], rot, nogo=zones),
+                       make_gen_replay(polys[nm], rot, nogo=zones), setup, F,
+                       'polygon %s with %d convex no-go zone(s), rotation %.3f rad concrete; target spacing: all reals in [5,12] m' % (nm, len(zones), rot), AS, max_seconds=1500))
     for nm, rot, shift in [('rect60x40', 0.0, (13.0, 7.5)), ('tri', 0.3, (4.25, 31.0))] + ([] if tier == 'quick' else [('hexagon', -0.6, (100.0, 3.0)), ('tri_axes', 0.0, (0.5, 0.5))]):
         us.append(Unit('shift_%s_rot%.2f' % (nm, rot), make_shift_fn(polys[nm], rot, shift), make_shift_replay(polys[nm], rot, shift), setup, F,
                        'polygon %s translated by %s; spacing all reals in [5,25] m' % (nm, shift), AS, max_seconds=1500))
